@@ -136,3 +136,44 @@ pub fn run(case: &J) -> R<J> {
 pub fn drive(_seed: u64, _n: usize) -> Vec<J> {
     vec![]
 }
+
+// ---------------------------------------------------------------- partial entity stores
+/// family "pstore" (C13): a concrete request, a store from which one entity is missing and which is marked
+/// partial (`Entities::partial()`: an entity that is not there is unknown, not absent), and the options for
+/// the missing entity (records, or absent for real).  Records the partial response and the from-scratch
+/// response for every option.
+pub fn run_pstore(case: &J) -> R<J> {
+    let pols = case["pols"].as_array().ok_or("pols")?;
+    let mut ps = PolicySet::new();
+    let mut back = HashMap::new();
+    let mut all = BTreeSet::new();
+    for p in pols {
+        let id = p["id"].as_str().ok_or("id")?;
+        add_policy(&mut ps, p, id, 0)?;
+        back.insert(id.to_string(), id.to_string());
+        all.insert(id.to_string());
+    }
+    let req: Request = core_request_from_wire(&case["req"])?.into();
+    let ents: cedar_policy::Entities = core_entities_from_wire(&case["store"])?.into();
+    let ents = ents.partial();
+    let auth = Authorizer::new();
+    let presp = auth.is_authorized_partial(&req, &ps, &ents);
+    let resp = partial_to_wire(&presp, &all);
+    let mut scratch = vec![];
+    for o in case["options"].as_array().ok_or("options")? {
+        let mut rows = case["store"].as_array().ok_or("store")?.clone();
+        if o.get("absent").is_none() {
+            rows.push(o.clone());
+        }
+        let cents: cedar_policy::Entities = core_entities_from_wire(&J::Array(rows))?.into();
+        scratch.push(response_to_wire(&auth.is_authorized(&req, &ps, &cents), &back));
+    }
+    let mut out = json!({
+        "ev": "PartialStore", "pols": with_record_keys(&case["pols"]), "req": case["req"], "store": case["store"],
+        "missing": case["missing"], "options": case["options"], "resp": resp, "scratch": scratch,
+    });
+    if let Some(id) = case.get("id") {
+        out["id"] = id.clone();
+    }
+    Ok(out)
+}
